@@ -1,10 +1,11 @@
 (* C17 — property theorems only: statement, `exact <lemma>`, Print Assumptions. *)
-From GL Require Import Common.Bytes Dbg.Lines Dbg.LinesFacts Dbg.Layout Dbg.LayoutFacts.
+From GL Require Import Common.Bytes Dbg.Lines Dbg.LinesFacts Dbg.Layout Dbg.LayoutFacts
+  Dbg.Scope Dbg.ScopeFacts Dbg.DbgLocals Dbg.DbgLocalsFacts.
 
 (* The line of a token of a rendered program, in closed form: 1 + the newline sequences of the
    separators up to and including its own + those inside the tokens before it. *)
 Theorem line_of_offset_render : forall toks lay i,
-  Forall tok_ok toks -> length lay = length toks -> (i < length toks)%nat ->
+  Forall tok_ok toks -> List.length lay = List.length toks -> (i < List.length toks)%nat ->
   tok_line toks lay i = tok_line_closed toks lay i.
 Proof. exact line_of_offset_render_lemma. Qed.
 Print Assumptions line_of_offset_render.
@@ -12,26 +13,26 @@ Print Assumptions line_of_offset_render.
 (* Line information is a function of token positions only: giving the separator before token i
    k more newline sequences moves tokens i, i+1, ... down by exactly k lines and no others. *)
 Theorem layout_shift : forall toks lay lay' i k j,
-  Forall tok_ok toks -> length lay = length toks ->
-  same_except lay lay' i -> (i < length toks)%nat ->
+  Forall tok_ok toks -> List.length lay = List.length toks ->
+  same_except lay lay' i -> (i < List.length toks)%nat ->
   nl_count (nth i lay' []) = nl_count (nth i lay []) + k ->
-  (j < length toks)%nat ->
+  (j < List.length toks)%nat ->
   tok_line toks lay' j = tok_line toks lay j + (if (i <=? j)%nat then k else 0).
 Proof. exact layout_shift_lemma. Qed.
 Print Assumptions layout_shift.
 
 Theorem layout_shift_insert : forall toks lay i x j,
-  Forall tok_ok toks -> length lay = length toks -> (i < length toks)%nat ->
+  Forall tok_ok toks -> List.length lay = List.length toks -> (i < List.length toks)%nat ->
   (x = [] \/ is_nl (last x 0) = false \/ is_nl (hd 0 (nth i lay [])) = false) ->
-  (j < length toks)%nat ->
+  (j < List.length toks)%nat ->
   tok_line toks (insert_sep lay i x) j =
   tok_line toks lay j + (if (i <=? j)%nat then nl_count x else 0).
 Proof. exact layout_shift_insert_lemma. Qed.
 Print Assumptions layout_shift_insert.
 
 Theorem admissible_range_shift : forall toks lay lay' i k (s : stmt),
-  Forall tok_ok toks -> length lay = length toks ->
-  same_except lay lay' i -> (i < length toks)%nat ->
+  Forall tok_ok toks -> List.length lay = List.length toks ->
+  same_except lay lay' i -> (i < List.length toks)%nat ->
   nl_count (nth i lay' []) = nl_count (nth i lay []) + k ->
   0 <= fst s -> fst s <= snd s -> snd s < len toks ->
   admissible toks lay' s =
@@ -47,11 +48,11 @@ Proof. exact single_line_statement_exact_lemma. Qed.
 Print Assumptions single_line_statement_exact.
 
 Theorem reported_line_function_of_tokens : forall toks lay lay' i k (report : layout -> Z) j,
-  Forall tok_ok toks -> length lay = length toks ->
-  same_except lay lay' i -> (i < length toks)%nat ->
+  Forall tok_ok toks -> List.length lay = List.length toks ->
+  same_except lay lay' i -> (i < List.length toks)%nat ->
   nl_count (nth i lay' []) = nl_count (nth i lay []) + k ->
-  (j < length toks)%nat ->
-  (forall l, length l = length toks -> report l = tok_line toks l j) ->
+  (j < List.length toks)%nat ->
+  (forall l, List.length l = List.length toks -> report l = tok_line toks l j) ->
   report lay' = report lay + (if (i <=? j)%nat then k else 0).
 Proof. exact reported_line_function_of_tokens_lemma. Qed.
 Print Assumptions reported_line_function_of_tokens.
@@ -63,3 +64,81 @@ Theorem span_lines_reference : forall bs spans,
   map (fun s => (line_of_offset bs (fst s), line_of_offset bs (fst s + snd s))) spans.
 Proof. exact span_lines_correct. Qed.
 Print Assumptions span_lines_reference.
+
+(* ---- which line may be reported ---- *)
+
+(* FULL STATEMENT (not provable here: there is no model of compile.go): for the reporter
+   `report` that the real compiler + run time implement for one fault site or query, the number
+   lies in the admissible range of the innermost statement containing the site, in every layout. *)
+Definition compiler_lines_admissible (toks : list token) (stmts : list stmt) (site : Z)
+                                     (report : layout -> Z) : Prop :=
+  exists s, innermost stmts site None = Some s /\
+            forall lay, List.length lay = List.length toks -> in_range (admissible toks lay s) (report lay).
+
+(* PARTIAL: it holds for every reporter that names the line of one fixed token of that
+   statement.  That gopher's reporter is of this kind, with the token the impl model predicts, is
+   what the correspondence validates per program (check_impl on every layout run). *)
+Theorem compiler_lines_admissible_partial : forall toks stmts site s j (report : layout -> Z),
+  Forall tok_ok toks ->
+  innermost stmts site None = Some s ->
+  0 <= fst s -> fst s <= j <= snd s -> snd s < len toks ->
+  (forall lay, List.length lay = List.length toks -> report lay = tok_line toks lay (Z.to_nat j)) ->
+  compiler_lines_admissible toks stmts site report.
+Proof. exact compiler_lines_admissible_partial_lemma. Qed.
+Print Assumptions compiler_lines_admissible_partial.
+
+(* the innermost statement found for a site contains it, and (entries being nested or disjoint)
+   lies inside every other entry that contains it *)
+Theorem innermost_is_innermost : forall ss t r,
+  innermost ss t None = Some r ->
+  (In r ss /\ fst r <= t <= snd r) /\
+  ((forall a b, In a ss -> In b ss -> contains a t = true -> contains b t = true ->
+                fst a <= fst b -> snd b <= snd a) ->
+   forall s, In s ss -> contains s t = true -> fst s <= fst r /\ snd r <= snd s).
+Proof. exact innermost_is_innermost_lemma. Qed.
+Print Assumptions innermost_is_innermost.
+
+(* ---- variables ---- *)
+
+(* The reference: debug.getlocal at a point enumerates exactly the declared-and-not-ended
+   variables of the function, in declaration order (the structural definition used by the
+   checker = the event-trace definition). *)
+Theorem locals_in_scope_spec : forall f p, locals_at f p = declared_not_ended f p.
+Proof. exact locals_in_scope_lemma. Qed.
+Print Assumptions locals_in_scope_spec.
+
+Theorem getlocal_enumerates : forall env,
+  (forall i, 1 <= i <= len env -> getlocal env i = nth_error env (Z.to_nat (i - 1))) /\
+  (forall i, 1 <= i <= len env -> exists b, getlocal env i = Some b) /\
+  (forall i, i < 1 \/ len env < i -> getlocal env i = None).
+Proof. exact getlocal_enumerates_lemma. Qed.
+Print Assumptions getlocal_enumerates.
+
+(* setlocal changes exactly that one variable *)
+Theorem setlocal_exact : forall env i v,
+  match setlocal env i v with
+  | (Some n, env') =>
+      (exists old, getlocal env i = Some (n, old)) /\
+      getlocal env' i = Some (n, v) /\
+      (forall j, j <> i -> getlocal env' j = getlocal env j) /\
+      map fst env' = map fst env
+  | (None, env') => getlocal env i = None /\ env' = env
+  end.
+Proof. exact setlocal_exact_lemma. Qed.
+Print Assumptions setlocal_exact.
+
+(* gopher-lua's bookkeeping (transcription of RegisterLocalVar / StartLocalVarsHere / EndScope /
+   LocalName / GetLocal after fix commits 0bd7783, 6924931, 2c783a2) gives the reference answer,
+   names and values, at every point of every function of the modelled language *)
+Theorem dbglocals_refines_scope : forall f p, dbg_locals_at f p = locals_at f p.
+Proof. exact dbglocals_refines_scope_lemma. Qed.
+Print Assumptions dbglocals_refines_scope.
+
+(* the bookkeeping as it was before the fix does not: witness C17-1 *)
+Theorem dbglocals_old_refuted :
+  exists f p pc,
+    point_pc (compile_fn f) 0 p = Some pc /\
+    option_map e_name (local_name_old (dbg_table_old f) 2 pc) = Some "c"%string /\
+    option_map (fun env => getlocal env 2) (locals_at f p) = Some (Some ("d"%string, Some 4)).
+Proof. exact dbglocals_old_refuted_lemma. Qed.
+Print Assumptions dbglocals_old_refuted.
